@@ -32,12 +32,24 @@ PROPS = {
         not_decided=['serialising a file to JSON and parsing it back gives an equal file (serde/serde_json code is outside both verifiers)',
                      'BgpsecAssertion::to_payload and LocallyAddedAssertions::iter_payload (iterator adapters map/chain: rejected by Verus); PrefixAssertion/AspaAssertion::to_payload are proved'],
     ),
+    'C14': dict(
+        level='proof',
+        units=[('V', 'mft_name'), ('K', 'mft_name')],
+        technique='contract-based deductive verification: Verus loop contract on the extracted FileAndHash::validate_file_name (any name length) + spec-level lemma that a valid name is a single safe URI segment; Kani complete harness for the 3-byte extension test and a bounded (<=8 bytes) equivalence with the RFC 9286 predicate',
+        level_text='Unbounded proof (all lengths) that an accepted manifest file name has the shape stem{1,}[A-Za-z0-9_-] "." xyz, so it contains no slash, is not a dot segment and is non-empty (lemma_valid_name_is_single_safe_segment: exactly the failure conditions of Rsync::join are excluded). The letter test of the extension goes through slice::Iter::all, which Verus cannot specify; it is proved complete by Kani for all 2^40 five-byte names and the full equivalence Ok <=> valid only bounded (<= 8 bytes).',
+        level_note='Trusted: Verus/Z3, Kani/CBMC, std u8::is_ascii_* contracts (proved for all 256 bytes by Kani). Assumed, not proved: the contract of Rsync::join (Bytes/str code), that both bcder decode closures call validate_file_name, len()==iterator count, thisUpdate<=nextUpdate, ManifestHash::verify (Bytes/AsRef/aws-lc digest).',
+        assumed=['Rsync::join(base, name) fails only for names with "/" , empty names or dot segments and otherwise yields base + name (uri.rs is Bytes/str code outside Verus)'],
+        not_decided=['that skip_opt_in and take_opt_from (bcder closures) call validate_file_name before returning Ok',
+                     'reported length equals the number of entries the iterator yields; this-update is not after next-update (inside bcder closures of ManifestContent::take_from)',
+                     'ManifestHash::verify: Ok exactly when hash == digest(data) (AsRef/Bytes/slice != and the aws-lc digest are outside both tools)',
+                     'Ok <=> valid for names longer than 8 bytes (only Ok => shape is proved unbounded)'],
+    ),
 }
 
 _PENDING = 'contracts for this property are not built yet in this revision (work in progress; see DESIGN.md §5)'
 NOT_APPLICABLE = {
     'C01': _PENDING, 'C02': _PENDING, 'C03': _PENDING, 'C07': _PENDING, 'C09': _PENDING, 'C10': _PENDING,
-    'C12': _PENDING, 'C14': _PENDING, 'C17': _PENDING,
+    'C12': _PENDING,  'C17': _PENDING,
     'C04': 'quantifies over all byte strings into eleven decoders that are trees of bcder closures over bytes::Bytes (external crate); no function-level contract expresses "the whole parser returns", Verus cannot take that code and Kani does not terminate on Bytes (DESIGN.md §6)',
     'C05': 'built-object vs decoded-object agreement is a statement about the symmetry of bcder encoders and decoders across ten object types; not a per-function property of code within reach of Verus/Kani (DESIGN.md §6)',
     'C06': 'whole-history property of an async client/server exchange; contracts over one call cannot state "after any completed exchange", and neither tool has a scheduler model that survives tokio (DESIGN.md §6)',
